@@ -59,7 +59,7 @@ class ClassDecl:
 class Contract:
     def __init__(self, key, params=None, returns=None, requires=(), ensures=(), raises=None,
                  modifies=(), loops=None, ghost_entry=(), ghost_exit=(), external=False, tags=(),
-                 locals=None, doc="", pure=False, handler=None, allow_escape=(), assume_on_entry=(), ghost_after=None, ghost_results=None, yield_raises=False, ctype_model=None):
+                 locals=None, doc="", pure=False, handler=None, allow_escape=(), assume_on_entry=(), ghost_after=None, ghost_results=None, yield_raises=False, ctype_model=None, prelude=None):
         self.key = key
         self.params = {k: parse_type(v) for k, v in (params or {}).items()}
         self.returns = parse_type(returns) if returns else None
@@ -83,6 +83,7 @@ class Contract:
         self.assume_on_entry = _clauses(assume_on_entry, self.tags)
         self.yield_raises = yield_raises
         self.ctype_model = ctype_model
+        self.prelude = prelude          # key of an external contract applied at every call site BEFORE the requires (interference of another thread)
         self.ghost_results = {k: parse_type(v) for k, v in (ghost_results or {}).items()}
         # ghost statements run after the normal return of a call to the named callee inside this function
         self.ghost_after = {k: [ast.parse(x).body for x in ([v] if isinstance(v, str) else v)] for k, v in (ghost_after or {}).items()}
